@@ -61,23 +61,18 @@ Theorem C03_objlike :
     exists tb, build_table 0 (map define_line ds) [] = inl tb /\
     exists n, forall fuel, n <= fuel ->
       exists out,
-        expand cur_lead cur_cat_fix cur_str_white cur_base cur_rescan cur_va_fix cur_va_whole
+        expand cur_lead cur_cat_fix cur_str_white cur_resub_fix cur_base cur_rescan cur_va_fix cur_va_whole
                Gen.C03_tables.max_level tb fuel input = Ok out /\
         run_spec fuel (stable_of_defs ds) (map btok_of input) = Ok (map sp out).
 Proof.
   intros ds input Hwf Hin Hlev. exists (mtable ds). split; [exact (build_objlike ds Hwf)|].
-  exact (objlike_main ds Hwf _ _ _ _ _ _ input Hin Hlev).
+  exact (objlike_main ds Hwf _ _ _ _ _ _ _ input Hin Hlev).
 Qed.
 Print Assumptions C03_objlike.
 
 (* ------------------------------------------------------------------ *)
 (* full conformance is refuted: one closed witness per finding class    *)
 (* ------------------------------------------------------------------ *)
-Theorem C03_conformance_refuted_operand_token_resubstituted :
-  exists cs input, disagree cs input.
-Proof. exact (ex_intro _ _ (ex_intro _ _ refuted_operand_resubstituted)). Qed.
-Print Assumptions C03_conformance_refuted_operand_token_resubstituted.
-
 Theorem C03_conformance_refuted_operand_only_argument_expanded :
   exists cs input, disagree cs input.
 Proof. exact (ex_intro _ _ (ex_intro _ _ refuted_operand_only_expanded)). Qed.
@@ -99,27 +94,29 @@ Theorem C03_repaired_defects_refuted_and_now_conform :
       /\ run_M_case [def_obj ViaDorig [tI "A"; tO "=="; tO "="] "A" [tO "=="]] [tI "A"]
          <> run_S_case [def_obj ViaDorig [tI "A"; tO "=="; tO "="] "A" [tO "=="]] [tI "A"]
       /\ agree [def_obj (ViaD 1 true) [tI "A"; tOw "=="] "A" [tO "=="]] [tI "A"])
-  /\ was_wrong (run_M_with true cur_cat_fix cur_str_white cur_base cur_rescan cur_va_fix cur_va_whole)
+  /\ was_wrong (run_M_with true cur_cat_fix cur_str_white cur_resub_fix cur_base cur_rescan cur_va_fix cur_va_whole)
                w_str [tI "S"; tP "("; tIw "a"; tP ")"]
-  /\ was_wrong (run_M_with cur_lead false cur_str_white cur_base cur_rescan cur_va_fix cur_va_whole)
+  /\ was_wrong (run_M_with cur_lead false cur_str_white cur_resub_fix cur_base cur_rescan cur_va_fix cur_va_whole)
                w_cat [tI "F"; tP "("; tI "a"; tP ","; tP ")"]
-  /\ was_wrong (run_M_with cur_lead false cur_str_white cur_base cur_rescan cur_va_fix cur_va_whole)
+  /\ was_wrong (run_M_with cur_lead false cur_str_white cur_resub_fix cur_base cur_rescan cur_va_fix cur_va_whole)
                w_cat3 [tI "F"; tP "("; tP ","; tP ","; tN "1"; tP ")"]
-  /\ was_wrong (run_M_with cur_lead cur_cat_fix cur_str_white (Some "None") cur_rescan cur_va_fix cur_va_whole)
+  /\ was_wrong (run_M_with cur_lead cur_cat_fix cur_str_white cur_resub_fix (Some "None") cur_rescan cur_va_fix cur_va_whole)
                [def_obj ViaDefine [tIw "None"; tNw "1"] "None" [tN "1"]] [tI "None"]
-  /\ was_wrong (run_M_with cur_lead cur_cat_fix cur_str_white cur_base true cur_va_fix cur_va_whole)
+  /\ was_wrong (run_M_with cur_lead cur_cat_fix cur_str_white cur_resub_fix cur_base true cur_va_fix cur_va_whole)
                w_fg [tI "f"; tP "("; tN "2"; tP ")"; tP "("; tN "9"; tP ")"]
-  /\ was_wrong (run_M_with cur_lead cur_cat_fix cur_str_white cur_base true cur_va_fix cur_va_whole) w_lp [tI "X"]
-  /\ was_wrong (run_M_with cur_lead cur_cat_fix cur_str_white cur_base cur_rescan false cur_va_whole)
+  /\ was_wrong (run_M_with cur_lead cur_cat_fix cur_str_white cur_resub_fix cur_base true cur_va_fix cur_va_whole) w_lp [tI "X"]
+  /\ was_wrong (run_M_with cur_lead cur_cat_fix cur_str_white cur_resub_fix cur_base cur_rescan false cur_va_whole)
                w_log [tI "LOG"; tP "("; tN "1"; tP ")"]
-  /\ was_wrong (run_M_with cur_lead cur_cat_fix false cur_base cur_rescan cur_va_fix cur_va_whole)
+  /\ was_wrong (run_M_with cur_lead cur_cat_fix false cur_resub_fix cur_base cur_rescan cur_va_fix cur_va_whole)
                w_tb [tI "T"; tP "("; tI "b"; tP ")"]
-  /\ was_wrong (run_M_with cur_lead cur_cat_fix cur_str_white cur_base cur_rescan cur_va_fix false)
-               w_vacomma [tI "H"; tP "("; tN "7"; tPw ","; tN "8"; tP ")"].
+  /\ was_wrong (run_M_with cur_lead cur_cat_fix cur_str_white cur_resub_fix cur_base cur_rescan cur_va_fix false)
+               w_vacomma [tI "H"; tP "("; tN "7"; tPw ","; tN "8"; tP ")"]
+  /\ was_wrong (run_M_with cur_lead cur_cat_fix cur_str_white false cur_base cur_rescan cur_va_fix cur_va_whole)
+               w_resub [tI "G"; tP "("; tN "1"; tP ","; tI "x"; tP ")"].
 Proof.
   exact (conj original_dashD_equals (conj original_leading_blank (conj original_empty_paste_operand (conj original_two_empty_paste_operands
         (conj original_macro_named_None (conj original_rescan_following_source
-        (conj original_rescan_paren_indirection (conj original_variadic_unused (conj original_string_white original_variadic_comma_white))))))))).
+        (conj original_rescan_paren_indirection (conj original_variadic_unused (conj original_string_white (conj original_variadic_comma_white original_operand_resubstituted)))))))))).
 Qed.
 Print Assumptions C03_repaired_defects_refuted_and_now_conform.
 
